@@ -201,6 +201,11 @@ def build_algorithm(case, order):
         if info.get("bandit"):
             alg = algos.build(info["algo"], dataset_name=name, order=order, epsilon=case["eps"], delta=case["delta"],
                               noise_var=case["noise_var"], conf_contraction=case["contraction"], **kw)
+        elif case["model"] == "stub" and case.get("fixed_boxes") is not None:
+            stub = runstubs.FixedBoxStub(case["X"], case["mu"], rng, case["fixed_boxes"][0], case["fixed_boxes"][1], scale_hint=case["scale"],
+                                         decoupled=bool(info.get("decoupled")))
+            alg = algos.build(info["algo"], dataset_name=name, order=order, epsilon=case["eps"], delta=case["delta"],
+                              noise_var=case["noise_var"], conf_contraction=case["contraction"], stub=stub, **kw)
         elif case["model"] == "stub":
             stub = runstubs.StubGP(case["X"], case["mu"], rng, shape=info["shape"], mode=case["stub_mode"], scale_hint=case["scale"],
                                    decoupled=bool(info.get("decoupled")), rho_s=case["rho_s"], rho_g=case["rho_g"],
